@@ -364,4 +364,36 @@ func runC08(r *core.Run) {
 			})
 		}
 	})
+	// entries that alias one target (several names for the same file): the
+	// reference's cumulative size counts every link
+	au := gen.Universe(7)
+	var amasks []int
+	for m := 3; m < 1<<uint(len(au)); m++ {
+		amasks = append(amasks, m)
+	}
+	core.ParallelFor(len(amasks), workers, func(i int) {
+		names := gen.SubsetOf(au, amasks[i])
+		for _, f := range []int{8, 256} {
+			s := store.New()
+			two := []gen.DirEntry{gen.Leaf(s, "target-one"), gen.Leaf(s, "the second target")}
+			leaves := map[string]gen.DirEntry{}
+			var es []gen.DirEntry
+			set := map[string]bool{}
+			for j, n := range names {
+				leaves[n] = gen.DirEntry{Name: n, Cid: two[j%2].Cid, Tsize: two[j%2].Tsize}
+				es = append(es, leaves[n])
+				set[n] = true
+			}
+			root, sz, err := gen.RefShard(s, f, es)
+			r.Evaluations.Add(1)
+			if err != nil {
+				r.InternalError(err.Error())
+				return
+			}
+			r.States.Add(1)
+			c08State(s, f, root, sz, set, leaves, au, fmt.Sprintf("F=%d aliased targets %v", f, trimNames(names)), func(sig, detail string) {
+				r.Violate(sig+fmt.Sprintf(" aliased F=%d", f), detail, nil)
+			})
+		}
+	})
 }
